@@ -419,6 +419,13 @@ func runLifeCase(c cfg, seed uint64, o lifeOpts, keys map[string]struct{}) (eval
 		onOpen:    s.onOpen,
 		onTraffic: s.onTraffic,
 		onClose:   s.onClose,
+		afterPublish: func(cs *connState) {
+			// the shutdown request arms every connection snapshot() returns; a connection whose OnOpen was in progress then
+			// (checked the flag before it was set, published after the snapshot) is armed here - the flag only goes up
+			if s.shutdownArmed.Load() {
+				cs.armedLocal.Store(true)
+			}
+		},
 		onTick: func() (time.Duration, gnet.Action) {
 			if s.shutdownFrom == "OnTick" && s.shutdownArmed.Load() && !s.shutdownFired.Swap(true) {
 				s.armAll()
